@@ -206,6 +206,35 @@ fn probes(rep: &mut Report) {
     }
 }
 
+/// AND/OR tree of comparisons between a column and a literal of its type (either operand order)
+/// and BETWEENs; literals mostly occur in the column, so equality boundaries are hit
+fn simple_tree(r: &mut Rng, t: &TableDef) -> E {
+    let cmp = [Op::Eq, Op::Ne, Op::Lt, Op::Le, Op::Gt, Op::Ge];
+    let ncols = t.schema.cols.len();
+    let mut leaf = |r: &mut Rng| -> E {
+        let col = r.below(ncols as u64) as usize;
+        let from_data = if t.rows.is_empty() { Lit::Null } else { t.rows[r.below(t.rows.len() as u64) as usize][col].clone() };
+        let lit = match (t.schema.cols[col].1, from_data) {
+            (Ty::Int, Lit::I(v)) if r.chance(4, 5) => Lit::I(v),
+            (Ty::Int, _) => Lit::I(r.range(-3, 6)),
+            (_, Lit::S(v)) if r.chance(4, 5) => Lit::S(v),
+            (_, _) => Lit::S(r.pick(&["a", "ab", "b", ""]).to_string()),
+        };
+        match r.below(5) {
+            0 | 1 => E::Bin(*r.pick(&cmp), Box::new(E::Col(col)), Box::new(E::Lit(lit))),
+            2 | 3 => E::Bin(*r.pick(&cmp), Box::new(E::Lit(lit)), Box::new(E::Col(col))),
+            _ => E::Between(Box::new(E::Col(col)), Box::new(E::Lit(lit.clone())), Box::new(E::Lit(lit)), r.chance(1, 4)),
+        }
+    };
+    let mut pred = leaf(r);
+    for k in 0..r.range(1, 3) {
+        let l = leaf(r);
+        let op = if k == 0 || r.chance(2, 3) { Op::Or } else { Op::And };
+        pred = if r.chance(1, 2) { E::Bin(op, Box::new(pred), Box::new(l)) } else { E::Bin(op, Box::new(l), Box::new(pred)) };
+    }
+    pred
+}
+
 fn main() {
     engine::silence_panics();
     let args = Args::parse("C01");
@@ -224,6 +253,7 @@ fn main() {
         let mut r = rng.fork();
         let max_rows = if args.quick() { 8 } else { 20 };
         let mut db_def = gen_db(&mut r, 3, max_rows);
+        let mut large = None;
         if i % 12 == 11 {
             // large-table stream: one table of 100–400 rows (reaches the columnar / batched /
             // parallel paths), the others at most 4 rows so that joins stay small
@@ -232,9 +262,20 @@ fn main() {
             let n = *r.pick(&[100usize, 101, 127, 128, 129, 200, 255, 256, 257, 300, 400]);
             db_def.tables[t].rows = gen_rows(&mut r, &db_def.tables[t].schema, n);
             rep.count("large_table_case");
+            large = Some(t);
         }
         let g = QGen { db: &db_def, subqueries: true, force_from: None };
-        let q = g.gen_query(&mut r);
+        let mut q = g.gen_query(&mut r);
+        if let (Some(t), true) = (large, r.chance(1, 2)) {
+            // half of the large cases: a query over the large table whose WHERE is an AND/OR tree of
+            // column-vs-literal comparisons in both operand orders and BETWEENs (the shape the
+            // scan-level columnar predicate tree handles), literals taken from the data
+            let sg = QGen { db: &db_def, subqueries: false, force_from: Some(From::Table(t)) };
+            let mut core = sg.gen_core(&mut r, true);
+            core.where_ = Some(Pred::Ex(simple_tree(&mut r, &db_def.tables[t])));
+            q = Query::Core(core);
+            rep.count("large_table_simple_predicate_tree");
+        }
         if i < 5 {
             rep.sample(serde_json::json!({"sql": q.sql(&db_def), "tables": db_def.tables.iter().map(|t| t.rows.len()).collect::<Vec<_>>()}));
         }
